@@ -101,3 +101,9 @@ package bandwidthlimiter
 
 //@ func (*BandwidthLimitingWriter).Close
 //@   requires w.th != nil && w.th.metrics != nil
+
+//@ func BandwidthLimitingCopy
+//@   requires dst != nil && dst.th != nil && dst.th.metrics != nil
+//@   modifies httpOut, all(Bucket.tokenCount), all(Throttler.running), all(interop.InvokeResponseMetrics.ProducedBytes), all(interop.InvokeResponseMetrics.TimeShapedNs), all(interop.InvokeResponseMetrics.StartReadingResponseMonoTimeMs), all(interop.InvokeResponseMetrics.FinishReadingResponseMonoTimeMs), all(interop.InvokeResponseMetrics.OutboundThroughputBps)
+//@   ensures [copied-at-most-source] 0 <= written && written <= readerLen(src)
+//@   ensures [complete-on-success] err == nil ==> written == readerLen(src)
